@@ -14,15 +14,15 @@ from extract import ExtractionError, code_tokens, match_brace, find_block_open
 POSTPROCESS = "prqlc/prqlc/src/sql/pq/postprocess.rs"
 PQ_AST = "prqlc/prqlc/src/sql/pq/ast.rs"
 
-LABELS = ["SI0", "SI1", "SI2", "SI3", "SI4", "SI5", "SI6", "SI7", "SI8", "CS1", "CS2"]
-FUNCTIONS = ["infer_step", "store_cte_sorting"]
+LABELS = ["SI0", "SI1", "SI2", "SI3", "SI4", "SI5", "SI6", "SI7", "SI8", "CS1", "CS2", "SC1", "SC2", "SC3"]
+FUNCTIONS = ["infer_step", "store_cte_sorting", "carry_sort_columns"]
 RLIMIT = 120
 
 ASSUMED = [
     {"what": "opaque external types", "keys": ["pub struct Opaque"]},
     {"what": "HashMap<TId, CteSorting> is the shim CteMap with a ghost Map view and the std contracts of get / remove / insert; Vec::clone_from, Vec::clear, "
              "`v.drain(..).collect()` (= the whole content, v left empty) and Vec<ColumnSort<CId>>::clone have their std meaning",
-     "keys": ["struct CteMap", "fn view", "fn get", "fn remove", "fn insert", "fn vec_clone_from", "fn vec_drain_all", "fn clone_sorts"]},
+     "keys": ["struct CteMap", "fn view", "fn get", "fn remove", "fn insert", "fn vec_clone_from", "fn vec_drain_all", "fn clone_sorts", "fn vec_contains_cid"]},
     {"what": "CidRedirector::redirect_sorts(sorting, riid, anchor) is external: its result is the uninterpreted redirected(sorting, riid, anchor before the call); "
              "SortingInference::fold_sql_relation (the recursion into a sub-query) is external and unconstrained; SqlRelation and RIId are opaque; "
              "Context is the shim {anchor}",
@@ -35,6 +35,8 @@ TRUSTED = [
     "at an explicit Sort, which is not emitted here; (SI3) clear it at Distinct / Aggregate; (SI4) keep it across a Join unless it only served a DISTINCT ON; (SI5) emit, in "
     "front of a Take, the sort embedded in an unpartitioned take or else the sorting in effect, and keep the sorting; (SI6) emit the sorting in front of DISTINCT ON and mark it "
     "internal; (SI7) leave it alone at Select / Filter / Super; (SI8) emit every transform but Sort exactly once, after the Sort it may need",
+    "oracle (C03 / C05, SC1-3): a CTE hands its sorting to its consumers by column id, so its SELECT must carry every sort column: the columns it already selects stay where "
+    "they are, each missing sort column is appended once, nothing else is added",
     "the slices drop: the loop itself (the step is applied to each transform in order: for-loop over a Vec), the recursion into sub-queries, the tail of "
     "fold_sql_transforms (sort columns added to a CTE's SELECT; last_sorting), alias_last_sorting, the redirection of column ids",
 ]
@@ -73,6 +75,7 @@ impl CteMap {
 #[verifier::external_body] pub fn vec_clone_from<T>(a: &mut Vec<T>, b: &Vec<T>) ensures final(a)@ == b@, { unimplemented!() }
 #[verifier::external_body] pub fn vec_drain_all<T>(v: &mut Vec<T>) -> (r: Vec<T>) ensures r@ == old(v)@, final(v)@.len() == 0, { unimplemented!() }
 #[verifier::external_body] pub fn clone_sorts(v: &Vec<ColumnSort<CId>>) -> (r: Vec<ColumnSort<CId>>) ensures r@ == v@, { unimplemented!() }
+#[verifier::external_body] pub fn vec_contains_cid(v: &Vec<CId>, c: &CId) -> (r: bool) ensures r == v@.contains(*c), { unimplemented!() }
 pub type Anchor = OpaqueT;
 pub struct Context { pub anchor: Anchor }
 pub uninterp spec fn redirected(s: Seq<ColumnSort<CId>>, riid: RIId, anchor: Anchor) -> Seq<ColumnSort<CId>>;
@@ -184,7 +187,55 @@ def build(X):
                "{\n    " + cs.text + "\n}\n}\n")
     cs.rewrites.append({"rule": "slice", "what": "statements `let sorting = self.last_sorting.drain(..).collect(); .. self.ctes_sorting.insert(cte.tid, sorting);` of fold_sql_query wrapped as "
                         "fn store_cte_sorting(&mut self, tid)"})
-    return (PRELUDE + model + "\n" + st.text + "\n" + re_.text + "\n" + rek.text + "\n" + SHIMS + f.text + "\n" + cs.text + "\n} // verus!\nfn main() {}\n")
+    # ---- a CTE's SELECT carries its sort columns
+    sc = X.if_blocks(POSTPROCESS, "fold_sql_transforms", "if !self.main_relation {", name="carry_sort_columns", need_else=False,
+                     after="impl PqMapper<RelationExpr, RelationExpr, (), ()> for SortingInference")[0]
+    sc.drop_logging()
+    sc.rewrite_re("R5", r"let select = result\.iter_mut\(\)\.find_map\(\|x\| x\.as_select_mut\(\)\)\.unwrap\(\);\n?", "", count=1,
+                  why="the Select of the pipeline is a parameter of the slice (find_map over the emitted transforms)")
+    sc.rewrite_re("R3", r"for (\w+) in &sorting\b", r"for \1 in it: &sorting", count=1, why="iterator name for the loop invariant")
+    sc.rewrite_re("R5", r"\bselect\.contains\(&(\w+)\)", r"vec_contains_cid(select, &\1)", count=None, why="Vec<CId>::contains (derived PartialEq)")
+    sc.text = ("pub fn carry_sort_columns(select: &mut Vec<CId>, sorting: Vec<ColumnSort<CId>>)\n"
+               "    ensures\n"
+               "        // the columns selected before keep their places\n"
+               "        final(select)@.len() >= old(select)@.len() && final(select)@.subrange(0, old(select)@.len() as int) == old(select)@, // @SC1\n"
+               "        // every sort column is selected\n"
+               "        forall|i: int| 0 <= i < sorting@.len() ==> final(select)@.contains(#[trigger] sorting@[i].column), // @SC2\n"
+               "        // what is appended are sort columns that were missing, each once\n"
+               "        forall|k: int| old(select)@.len() <= k < final(select)@.len() ==> ((exists|i: int| 0 <= i < sorting@.len() && sorting@[i].column == #[trigger] final(select)@[k])\n"
+               "            && !final(select)@.subrange(0, k).contains(final(select)@[k])), // @SC3\n"
+               "{\n    " + sc.text + "\n}\n")
+    sc.loop_contract(1, """
+        invariant
+            it.seq().len() == sorting@.len(),
+            forall|k: int| 0 <= k < it.seq().len() ==> *(#[trigger] it.seq()[k]) == sorting@[k],
+            it.index@ <= sorting@.len(),
+            select@.len() >= old(select)@.len() && select@.subrange(0, old(select)@.len() as int) == old(select)@,
+            forall|i: int| 0 <= i < it.index@ ==> select@.contains(#[trigger] sorting@[i].column),
+            forall|k: int| old(select)@.len() <= k < select@.len() ==> ((exists|i: int| 0 <= i < sorting@.len() && sorting@[i].column == #[trigger] select@[k])
+                && !select@.subrange(0, k).contains(select@[k])),
+    """, fn_name="carry_sort_columns")
+    sc.insert_in_loop(1, "let ghost prev_sel = select@;", """
+        proof {
+            let c = sorting@[it.index@ as int].column;
+            assert(select@.contains(c)) by {
+                if prev_sel.contains(c) { let j = choose|j: int| 0 <= j < prev_sel.len() && prev_sel[j] == c; assert(select@[j] == c); }
+                else { assert(select@[select@.len() - 1] == c); }
+            }
+            assert forall|i: int| 0 <= i < it.index@ implies select@.contains(#[trigger] sorting@[i].column) by { // @SC2
+                let x = sorting@[i].column;
+                let j = choose|j: int| 0 <= j < prev_sel.len() && prev_sel[j] == x;
+                assert(select@[j] == x);
+            }
+            assert forall|k: int| old(select)@.len() <= k < select@.len() implies ((exists|i: int| 0 <= i < sorting@.len() && sorting@[i].column == #[trigger] select@[k]) // @SC3
+                    && !select@.subrange(0, k).contains(select@[k])) by {
+                if k < prev_sel.len() { assert(select@[k] == prev_sel[k]); assert(select@.subrange(0, k) =~= prev_sel.subrange(0, k)); }
+                else { assert(select@[k] == c); assert(select@.subrange(0, k) =~= prev_sel); }
+            }
+        }
+    """, "ghost snapshot of the Select at the top of the body; proof hints at its end: witnesses for `contains` after a push", fn_name="carry_sort_columns")
+    sc.rewrites.append({"rule": "slice", "what": "then-block of `if !self.main_relation { .. }` (tail of fold_sql_transforms) wrapped as fn carry_sort_columns(select, sorting)"})
+    return (PRELUDE + model + "\n" + st.text + "\n" + re_.text + "\n" + rek.text + "\n" + SHIMS + f.text + "\n" + cs.text + "\n" + sc.text + "\n} // verus!\nfn main() {}\n")
 
 
 # ----------------------------------------------------------------------------- replay on the real compiler
